@@ -127,6 +127,41 @@ func fieldStored(fn *ssa.Function, ap string) bool {
 // LowerBoundFromFacts derives a lower bound on len(container) from the branch
 // conditions that dominate the instruction.
 func LowerBoundFromFacts(in ssa.Instruction, container ssa.Value) (int64, []string) {
+	lb, used := lowerBoundFrom(in, container, core.FactsAtInstr(in))
+	// A block entered over several branch edges (`for a || b { ... }` is compiled to two tests that both jump to the
+	// body): the bound that every entering edge establishes also holds in the block.
+	b := in.Block()
+	if len(b.Preds) >= 2 {
+		m := int64(-1)
+		var why []string
+		for _, pr := range b.Preds {
+			fs := append([]core.Fact{}, core.FactsAt(pr)...)
+			if ifi, ok := pr.Instrs[len(pr.Instrs)-1].(*ssa.If); ok && len(pr.Succs) == 2 && pr.Succs[0] != pr.Succs[1] {
+				cond, truth := ifi.Cond, pr.Succs[0] == b
+				for {
+					if u, ok := cond.(*ssa.UnOp); ok && u.Op == token.NOT {
+						cond, truth = u.X, !truth
+						continue
+					}
+					break
+				}
+				fs = append(fs, core.Fact{Cond: cond, Truth: truth, If: ifi})
+			}
+			l, u := lowerBoundFrom(in, container, fs)
+			if m < 0 || l < m {
+				m = l
+			}
+			why = append(why, u...)
+		}
+		if m > lb {
+			lb = m
+			used = append(used, "on every edge into the block: "+strings.Join(why, "; "))
+		}
+	}
+	return lb, used
+}
+
+func lowerBoundFrom(in ssa.Instruction, container ssa.Value, facts []core.Fact) (int64, []string) {
 	capName := core.AP(container)
 	if strings.Contains(capName, ".") && fieldStored(in.Parent(), capName) {
 		// a store to the field between the test and the use could change it; only trust
@@ -159,7 +194,7 @@ func LowerBoundFromFacts(in ssa.Instruction, container ssa.Value) (int64, []stri
 		}
 		return false
 	}
-	for _, f := range core.FactsAtInstr(in) {
+	for _, f := range facts {
 		cmp, ok := f.AsCmp()
 		if !ok {
 			// strings.HasSuffix(x, "const") / HasPrefix true => len(x) >= len(const)
